@@ -51,6 +51,19 @@ func init() {
 // executing a barrier instruction, the number of leading instructions that are
 // reachable that way.
 func c26Reach(fn *ssa.Function, removed map[edge]bool, barrier func(ssa.Instruction) bool) map[*ssa.BasicBlock]int {
+	// infeasible paths through merged or repeated conditions are pruned when the function has any
+	if lim := reachUnguardedBarrier(fn, removed, func(b *ssa.BasicBlock) int {
+		if barrier != nil {
+			for i, in := range b.Instrs {
+				if barrier(in) {
+					return i
+				}
+			}
+		}
+		return -1
+	}); lim != nil {
+		return lim
+	}
 	limit := map[*ssa.BasicBlock]int{}
 	if len(fn.Blocks) == 0 {
 		return limit
